@@ -25,12 +25,14 @@ def run(tier: str) -> int:
             {"Family": "trivia2", "MaxLen": 4, "Starts": "zero", "Sample": 350, "workers": 4},
             {"Family": "trivia3", "MaxLen": 4, "Starts": "zero", "Sample": 250, "workers": 4},
             {"Family": "mods", "MaxLen": 4, "Starts": "zero", "Sample": 400, "workers": 4},
+            {"Family": "names", "MaxLen": 3, "Starts": "zero", "Sample": 200, "workers": 2},
         ]
     else:
         fams = [
             {"Family": "trivia2", "MaxLen": 5, "Starts": "zero", "Sample": 0, "workers": 8},
             {"Family": "trivia3", "MaxLen": 4, "Starts": "zero", "Sample": 0, "workers": 12},
             {"Family": "mods", "MaxLen": 5, "Starts": "zero", "Sample": 0, "workers": 12},
+            {"Family": "names", "MaxLen": 4, "Starts": "zero", "Sample": 0, "workers": 8},
         ]
     for f in fams:
         replay.run_family(rep, f, "sem", modes)
